@@ -63,10 +63,20 @@ def run(ctx):
             return "D " + core.elist(S.subshapes, lambda c: core.elist(c.jordans, lambda j: core.epoly(tj(j))))
         exp = drv.ask("canon " + tshape(R))
         got = drv.ask("canon " + core.eshape(TR))
-        ctx.check(got == exp, "T(A) op T(B) is not T(A op B)", desc, exp[:300], got[:300])
-        ctx.check(IntegrateShape.area(TR) == k * k * IntegrateShape.area(R), "area does not scale by the square of the factor", desc)
+        # Point2D arithmetic re-limits denominators to 10^9 (finding K5): exact equality is demanded only while every vertex
+        # involved has a denominator whose square stays below 10^9; beyond that the comparison is numerical (1e-9 relative)
+        dens = gen.maxden([tuple(v) for S_ in (R, TR) for j in S_.jordans for v in j.vertices])
+        if dens * dens < 10 ** 9:
+            ctx.count("exact-regime")
+            ctx.check(got == exp, "T(A) op T(B) is not T(A op B)", desc, exp[:300], got[:300])
+            ctx.check(IntegrateShape.area(TR) == k * k * IntegrateShape.area(R), "area does not scale by the square of the factor", desc)
+        else:
+            ctx.count("rounded-regime")
+            ctx.check(canon_close(got, exp, 1e-9 * float(k) * 20), "T(A) op T(B) is not T(A op B) (numerical)", desc, exp[:300], got[:300])
+            a1, a0 = float(IntegrateShape.area(TR)), float(k * k * IntegrateShape.area(R))
+            ctx.check(abs(a1 - a0) <= 1e-9 * abs(a0), "area does not scale by the square of the factor (numerical)", desc, a0, a1)
         # complement, membership, containment
-        ctx.check(drv.ask("canon " + core.eshape(~TA)) == drv.ask("canon " + tshape(~A)), "~T(A) is not T(~A)", desc)
+        ctx.check(canon_close(drv.ask("canon " + core.eshape(~TA)), drv.ask("canon " + tshape(~A)), 0), "~T(A) is not T(~A)", desc)
         pts = core.dpts(drv.ask("samples 2 S " + core.epoly(va) + " S " + core.epoly(vb)))
         pts = [p for p in rng.sample(pts, min(8, len(pts))) if drv.ask(f"onb S {core.epoly(va)} {core.ept(p)}") == "F"]
         pts = [p for p in pts if gen.maxden([T(p)]) <= 10 ** 9]
@@ -98,6 +108,21 @@ def run(ctx):
             ctx.fail("operator did not return", desc, sig=sig)
         except Exception as ex:
             ctx.fail("operator raised", desc, got=repr(ex), sig=sig)
+
+
+def canon_close(a, b, tol):
+    ta, tb = a.split(), b.split()
+    if len(ta) != len(tb):
+        return False
+    for x, y in zip(ta, tb):
+        if x == y:
+            continue
+        try:
+            if abs(float(F(x)) - float(F(y))) > tol:
+                return False
+        except (ValueError, ZeroDivisionError):
+            return False
+    return True
 
 
 # area of circle(1) & square(1.5, center=(1,0)) for the 16-arc quadratic circle, from the unit-1 run (cross-checked by sampling below)
